@@ -290,7 +290,8 @@ def r2_p2p(program, folder, rep):
     rep.check(oka, "C14-R2", inst, "column c is read from P2P base + 128 * "
               "c (256 entries x 3 bits packed 8 per word)",
               construct="column address", node=fn)
-    rep.guard("C14-R2", _p2p_stream, program, folder, rep, fn)
+    rep.guard("C14-R2", _p2p_decode, program, folder, rep, fn, T, COL,
+              HEIGHT, T.term(rd[0], n))
     p2p = folder.name(CONSTS, "P2PTableEntry")
     rep.check(sorted(m.value for m in p2p) == list(range(8)), "C14-R2",
               CONSTS + ":P2PTableEntry", "every 3-bit value is a member of "
@@ -357,6 +358,81 @@ def _system_probe(program, folder, rep):
               "probed under its own coordinates; unresponsive chips are "
               "skipped; size = largest routed coordinate + 1",
               construct="system probe", node=gi)
+
+
+def _p2p_decode(program, folder, rep, fn, T, COL, HEIGHT, RAW):
+    """The column decode, in either of the two forms understood: a buffer
+    peeled four bytes at a time, or the whole column unpacked into words that
+    are indexed by row."""
+    if any(isinstance(n, ast.While) for n in ast.walk(fn)):
+        return _p2p_stream(program, folder, rep, fn)
+    return _p2p_indexed(program, folder, rep, fn, T, COL, HEIGHT, RAW)
+
+
+def _p2p_indexed(program, folder, rep, fn, T, COL, HEIGHT, RAW):
+    inst = qual(fn)
+    st = [x for x in stores(T) if x[4][0] in ("call", "callv") and
+          x[4][1][0] == "attr" and x[4][1][2] == "P2PTableEntry" and
+          len(x[4][2]) == 1]
+    if len(st) != 1 or COL is None or HEIGHT is None:
+        raise AnalysisError("the column decode is in a form that is not "
+                            "analysed")
+    n_, stmt, base, key, val = st[0]
+    ROW = ("elem", ("call", ("global", "range"), (HEIGHT,), ()))
+    X = val[2][0]
+    m = None
+    for pat in (("binop", "BitAnd", ("binop", "RShift", V("w"), V("sh")),
+                 ("const", 7)),
+                ("binop", "BitAnd", ("const", 7),
+                 ("binop", "RShift", V("w"), V("sh")))):
+        m = m or match(pat, X)
+    if m is None or m["w"][0] != "item":
+        raise AnalysisError("the column decode is in a form that is not "
+                            "analysed")
+    WORDS, WI = m["w"][1], m["w"][2]
+    pw = plain(WORDS)
+    oks = pw[0] == "call" and pw[1] in (
+        ("attr", ("global", "struct"), "unpack_from"),
+        ("attr", ("global", "struct"), "unpack")) and not pw[3] and \
+        len(pw[2]) in (2, 3) and pw[2][1] == plain(RAW) and \
+        (len(pw[2]) == 2 or pw[2][2] == ("const", 0))
+    if oks:
+        f = pw[2][0]
+        fmt = None
+        if f[0] == "call" and f[1][0] == "attr" and f[1][2] == "format" and \
+                f[1][1][0] == "const" and len(f[2]) == 1:
+            fmt = f[1][1][1].replace("{}", "N").replace("{0}", "N").replace(
+                "{:d}", "N")
+        elif f[0] == "binop" and f[1] == "Mod" and f[2][0] == "const" and \
+                isinstance(f[2][1], str):
+            fmt = f[2][1].replace("%d", "N")
+        oks = fmt == "<NI"
+    rep.check(oks, "C14-R2", inst, "the column is unpacked from its first "
+              "byte as little-endian 32-bit words (word i = bytes 4i..4i+3)",
+              construct="word stream", node=fn,
+              fail="the words indexed by the decode are not the "
+                   "little-endian 32-bit words of the column read")
+    sh = m["sh"]
+    r8 = ("binop", "Mod", ROW, ("const", 8))
+    okm = key == ("tuple", COL, ROW) and \
+        WI == ("binop", "FloorDiv", ROW, ("const", 8)) and \
+        sh in (("binop", "Mult", ("const", 3), r8),
+               ("binop", "Mult", r8, ("const", 3)))
+    # no row is skipped
+    lp = stmt._parent
+    while lp is not None and not isinstance(lp, ast.For):
+        lp = lp._parent
+    okm = okm and lp is not None and not any(
+        isinstance(x, (ast.Break, ast.Continue, ast.If))
+        for x in ast.walk(lp)) and \
+        T.cfg.must_pass([s for s in T.cfg.loop_head[id(lp)].succ
+                         if s.label == "forbody"][0], lambda x: x is n_,
+                        targets=[T.cfg.loop_head[id(lp)], T.cfg.exit])
+    rep.check(okm, "C14-R2", inst, "row r of column c is bits 3(r % 8)+2 : "
+              "3(r % 8) of word r // 8, for every r below the height",
+              construct="entry extraction", node=fn,
+              fail="the entry stored for (col, row) is not bits 3(row % 8)+2"
+                   ":3(row % 8) of word row // 8 of that column")
 
 
 def _p2p_stream(program, folder, rep, fn):
@@ -834,45 +910,153 @@ def r5_reservations(program, rep):
 
 
 def _range_merging(program, rep, mn):
-    """The range-merging generator in the form that keeps the open range in
-    one slice variable; other forms are not judged by this rule."""
-    mfl = Flow(mn)
-    ds = [d for d in mfl.defs if d.mode == "assign" and
-          isinstance(d.value, ast.Call) and call_name(d.value)[0] == "slice"]
-    names = set(d.var for d in ds)
-    if len(names) != 1:
-        raise AnalysisError("the open range is not kept in one slice "
-                            "variable")
-    rv = list(names)[0]
-    core = None
-    for lp in ast.walk(mn):
-        if isinstance(lp, ast.For) and isinstance(lp.target, ast.Name):
-            core = lp.target.id
-    forms = {}
-    for d in ds:
-        f = mfl.facts(d.node)
-        key = tuple(sorted((unparse(c), p) for c, p, _ in f))
-        forms[key] = unparse(d.value)
-    new = "slice(%s, %s + 1)" % (core, core)
-    ok = forms.get((("%s is None" % rv, True),)) == new and \
-        forms.get((("%s is None" % rv, False),
-                   ("%s.stop == %s" % (rv, core), True))) == \
-        "slice(%s.start, %s + 1)" % (rv, core) and \
-        forms.get((("%s is None" % rv, False),
-                   ("%s.stop == %s" % (rv, core), False))) == new
-    ys = [n for n in ast.walk(mn) if isinstance(n, ast.Yield)]
+    """The range-merging generator, whatever holds the open range (a slice
+    object, or its two bounds in two variables): by cases on 'is there an
+    open range' and 'does the core follow it directly', the new open range
+    and what is yielded are compared with first / extend / emit-and-restart."""
+    def mv(t):
+        # a merged variable is named by the variable (the case hypotheses
+        # prune its definitions differently)
+        if not isinstance(t, tuple):
+            return t
+        if t and t[0] == "mu":
+            return ("muvar", t[1].var)
+        return tuple(mv(x) for x in t)
+
+    def pl(t):
+        return mv(plain(t))
+
+    T = Terms(mn)
+    cfg = T.cfg
     ps = formals(mn)
-    oky = len(ys) == 2 and all(
-        unparse(y.value) == "ReserveResourceConstraint(%s, %s, %s)" % (
-            ps[0], rv, ps[2]) for y in ys)
-    if oky:
-        fs = [mfl.facts(mfl.cfg.node_containing(y)) for y in ys]
-        oky = any(has_fact(f, "%s is not None" % rv, True) for f in fs) \
-            and any(has_fact(f, "%s.stop == %s" % (rv, core), False)
-                    for f in fs)
-    rep.check(ok and oky, "C14-R5", qual(mn), "consecutive cores extend the "
-              "current range, a gap emits it and starts a new one, the last "
-              "range is emitted", construct="range merging", node=mn)
+    RES, CORES, CHIP = (("param", p_) for p_ in ps[:3])
+    loops = [lp for lp in ast.walk(mn) if isinstance(lp, ast.For) and
+             T.term(lp.iter, cfg.loop_head[id(lp)]) == CORES]
+    if len(loops) != 1:
+        raise AnalysisError("range merging: one loop over the cores")
+    lp = loops[0]
+    head = cfg.loop_head[id(lp)]
+    CORE = T._tag(lp.iter, ("elem", CORES))
+    NEXT = (("binop", "Add", CORE, ("const", 1)),
+            ("binop", "Add", ("const", 1), CORE))
+    ys = []
+    for y in ast.walk(mn):
+        if isinstance(y, ast.Yield) and y.value is not None:
+            n = cfg.node_containing(y)
+            t = T.term(y.value, n)
+            if not (t[0] in ("call", "callv") and
+                    t[1] == ("global", "ReserveResourceConstraint") and
+                    len(t[2]) == 3 and not t[3]):
+                raise AnalysisError("range merging: what is yielded")
+            ys.append((y, n, t[2]))
+    final = [x for x in ys if not _inside(x[0], lp)]
+    inner = [x for x in ys if _inside(x[0], lp)]
+    if not final and inner:
+        # the loop runs over exactly the cores given: the range still open
+        # after the last core can only be emitted after the loop
+        rep.check(False, "C14-R5", qual(mn), "the last range is emitted",
+                  construct="range merging", node=mn,
+                  fail="nothing is yielded after the loop over the cores: "
+                       "the last run of reserved cores is never emitted")
+        return
+    if len(final) != 1 or not inner:
+        raise AnalysisError("range merging: yields")
+    okargs = all(a[0] == RES and a[2] == CHIP for _, _, a in ys)
+    # the state: a slice object, or two bounds
+    R = final[0][2][1]
+    pr = pl(R)
+    if pr[0] == "call" and pr[1] == ("global", "slice") and len(pr[2]) == 2:
+        form = "pair"
+        A, B = R[2] if R[0] != "new" else R[2][2]
+        if A[0] != "mu" or B[0] != "mu":
+            raise AnalysisError("range merging: the open range's bounds")
+        svars = [A[1].var, B[1].var]
+    elif R[0] == "mu":
+        form = "obj"
+        svars = [R[1].var]
+    else:
+        raise AnalysisError("range merging: the open range")
+
+    def at_head(v):
+        return T.term(ast.Name(id=v, ctx=ast.Load()), head)
+    S0 = [at_head(v) for v in svars]
+    if form == "obj":
+        LO0, HI0 = ("attr", S0[0], "start"), ("attr", S0[0], "stop")
+    else:
+        LO0, HI0 = S0
+    none = [(is_none(x), True) for x in S0]
+    some = [(is_none(x), False) for x in S0]
+    follows = mk_cmp("Eq", HI0, CORE)
+
+    def as_range(t):
+        t = pl(t)
+        if t[0] == "call" and t[1] == ("global", "slice") and \
+                len(t[2]) == 2 and not t[3]:
+            return t[2]
+        return None
+
+    def case(hyps):
+        """(new (lo, hi), [yielded (lo, hi)]) on the iterations where the
+        hypotheses hold."""
+        H = T.under(*hyps)
+        new = {}
+        for b_ in T.binds:
+            if b_.var in svars and b_.mode != "param" and \
+                    _inside(b_.node.ast, lp) and b_.mode != "iter" and \
+                    H.live(b_.node):
+                if b_.var in new:
+                    raise AnalysisError("range merging: two updates on one "
+                                        "path")
+                new[b_.var] = H._bind_term(b_)
+        if form == "obj":
+            r = as_range(new[svars[0]]) if svars[0] in new else \
+                (pl(LO0), pl(HI0))
+            if r is None:
+                raise AnalysisError("range merging: the new open range")
+        else:
+            r = (pl(new.get(svars[0], LO0)), pl(new.get(svars[1], HI0)))
+        out = []
+        for y, n, a in inner:
+            if H.live(n):
+                a1 = H.term(y.value.args[1], n) if isinstance(
+                    y.value, ast.Call) and len(y.value.args) == 3 else a[1]
+                if form == "obj" and pl(a1) == pl(S0[0]):
+                    out.append((pl(LO0), pl(HI0)))
+                else:
+                    out.append(as_range(a1))
+        return r, out
+    old = (pl(LO0), pl(HI0))
+    c1, y1 = case(none)
+    c2, y2 = case(some + [(follows, True)])
+    c3, y3 = case(some + [(follows, False)])
+    fresh = [(pl(CORE), pl(n_)) for n_ in NEXT]
+    ok = c1 in fresh and not y1
+    ok = ok and c2 in [(old[0], pl(n_)) for n_ in NEXT] and not y2
+    ok = ok and c3 in fresh and y3 == [old]
+    # the last range is emitted whenever there is one
+    fy, fn_, fa = final[0]
+    ff = T.all_facts(fn_)
+    okf = any(x in ff for x in some) and len([x for x in ff if x not in
+                                              some]) == 0
+    if form == "obj":
+        okf = okf and pl(fa[1]) == pl(S0[0])
+    # nothing skips a core
+    no_skip = not any(isinstance(x, (ast.Break, ast.Continue, ast.Return))
+                      for x in ast.walk(lp))
+    # before the first core there is no open range
+    init = all(alt == ("const", None) for v in svars
+               for alt in [T.term(ast.Name(id=v, ctx=ast.Load()),
+                                  cfg.stmt_node[id(lp)])])
+    rep.check(ok and okf and okargs and no_skip and init, "C14-R5", qual(mn),
+              "consecutive cores extend the current range, a gap emits it "
+              "and starts a new one, the last range is emitted",
+              construct="range merging", node=mn,
+              fail="the reserved ranges are not the maximal runs of "
+                   "consecutive cores: first core -> %s, following core -> "
+                   "%s yields %s, gap -> %s yields %s" % (
+                       show(("tuple",) + tuple(c1))[:60],
+                       show(("tuple",) + tuple(c2))[:60], len(y2),
+                       show(("tuple",) + tuple(c3))[:60], len(y3)))
 
 
 def _parse_struct(text, name):
